@@ -1,4 +1,13 @@
-(* encoders whose models arrive later (aztec, pdf417) plug in here *)
+(* aztec and pdf417 for the all-encoders handlers *)
 open Model
-let encode_extra (a : string list) : barcode outcome = failwith ("no model for " ^ String.concat " " a)
-let repr_extra (a : string list) : bool = failwith ("no spec for " ^ String.concat " " a)
+open Conv
+
+let encode_extra (a : string list) : barcode outcome =
+  match a with
+  | ["az"; pct; layers; h] -> az_encode (zlist_of_hex h) (z_of_string pct) (z_of_string layers)
+  | _ -> failwith ("no model for " ^ String.concat " " a)
+
+let repr_extra (a : string list) : bool =
+  match a with
+  | ["az"; pct; layers; h] -> az_representable_b (zlist_of_hex h) (z_of_string pct) (z_of_string layers)
+  | _ -> failwith ("no spec for " ^ String.concat " " a)
